@@ -84,7 +84,7 @@ fn draw_shape(ctx: &Ctx, big: bool) -> Vec<usize> {
             5 => ctx.plan_pick(&[254usize, 255, 256, 257]),
             6 => 300 + ctx.plan(2000) as usize,
             7 if big => ctx.plan_pick(&[8191usize, 8192, 8193, 20000]),
-            8 if big && ctx.plan(8) == 0 => ctx.plan_pick(&[65536usize, 131072, 200_000]),
+            8 if big && ctx.plan(8) == 0 => ctx.plan_pick(&[65536usize, 131072, 200_000, (1 << 20) - 1, 1 << 20, (1 << 20) + 1, 2 << 20]),
             _ => ctx.plan(64) as usize,
         };
         v.push(len);
